@@ -15,7 +15,8 @@ import Proofs.C19Reasm
       contiguous delivered before the first skip, everything queued behind a hole flushed) and
       `sg_prefix_property` derives the property for fq's report from it; `sg_needs_flush_assumption` shows the
       flush hypothesis cannot be dropped.  The correspondence run checks the hypothesis on recorded call traces.
-    * three defects found by the correspondence run are pinned by evaluation (`…_witness`).
+    * three defects found by the correspondence run are pinned by evaluation (`seq_wrap_witness`,
+      `fsm_reorder_witness`; `defrag_length_regression` for the one that has been fixed in /repo).
 -/
 namespace Props.C19
 open FqModel.Reasm Proofs.C19
@@ -270,13 +271,17 @@ theorem seq_wrap_witness :
     seqDifference 0xFFFFFFFE 6 = 7 ∧ overlapDropped 6 0xFFFFFFFE 8 = 7 ∧ overlapDropped 5008 5000 8 = 8 := by
   decide
 
-/-- known finding `defrag-length`: the 28 byte payload cut into [0,8) and [8,28), arriving in reverse
-    order: the reference rebuilds it, fq's test `newIPv4.Length != l` compares 28 with the total length 20+8
-    of the fragment that completed it and rejects; in order (completed by the 20 byte fragment) it accepts. -/
-theorem defrag_length_witness :
+/-- fixed finding `defrag-length` (regression): the 28 byte payload cut into [0,8) and [8,28), arriving in
+    reverse order.  The reference rebuilds it; the OLD test `newIPv4.Length != l` compared 28 with the total
+    length 20+8 of the fragment that completed it and rejected (in order, completed by the 20 byte fragment, it
+    accepted); the test as fixed in 8dc84a5a (`newIPv4 != ip4`) accepts every fragment that completes a
+    datagram and nothing else. -/
+theorem defrag_length_regression :
     let d : List Nat := List.range 28
     defragGroup [⟨8, false, d.drop 8⟩, ⟨0, true, d.take 8⟩] = some d ∧
-    acceptReassembled 28 (20 + 8) = false ∧ acceptReassembled 28 (20 + 20) = true := by decide
+    acceptReassembledOld 28 (20 + 8) = false ∧ acceptReassembledOld 28 (20 + 20) = true ∧
+    acceptReassembled true true = true ∧ acceptReassembled true false = false ∧
+    (∀ c, acceptReassembled false c = false) := by decide
 
 /-- known finding `fsm-reorder`: capture without handshake; FIN+ACK first, then the data segment of the same
     sender: `Accept` lets the FIN through and rejects the data.  In order both pass. -/
